@@ -23,6 +23,7 @@ func registerIntrinsics(e *Engine) {
 	registerTime(e)
 	registerMisc(e)
 	registerIO(e)
+	registerClockVx(e)
 	for _, f := range extraIntrinsics {
 		f(e)
 	}
